@@ -16,7 +16,7 @@ import (
 
 const controlFile31 = `package gocvss31
 
-import "strings"
+import ctlstrings "strings"
 
 var ctlCounter int
 
@@ -30,7 +30,7 @@ func (c *CVSS31) ctlTouch() { c.u0 = 1 }
 func ctlGo() { go func() {}() }
 
 // R17.constructs: non-constant string concatenation and an allocating callee on an exported API path
-func CtlConcat(a, b string) string { return strings.ToUpper(a) + b }
+func CtlConcat(a, b string) string { return ctlstrings.ToUpper(a) + b }
 
 // R18.ptr: a typed error returned by value
 func ctlErr() error { return ErrInvalidMetric{Abv: "x"} }
@@ -92,8 +92,16 @@ func runControls(def propDef, repo string, run *Run) {
 		}
 	}
 	w, err := loadOverlay(repo, "", overlay)
+	if err != nil && denyOK {
+		// the textual rewrite does not fit this tree (e.g. the file no longer imports strings): drop it
+		delete(overlay, filepath.Join(repo, "31", "cvss31.go"))
+		denyOK = false
+		w, err = loadOverlay(repo, "", overlay)
+	}
 	if err != nil {
-		run.fail("control", "load", "", "the control overlay does not load: "+err.Error())
+		// the planted file does not fit this tree either: the controls cannot run; that is a
+		// limitation of the controls, not a finding about the repository
+		run.Notes = append(run.Notes, "positive controls skipped: the control overlay does not load on this tree: "+clip(err.Error()))
 		return
 	}
 	groupsNeeded := map[string]bool{}
